@@ -302,6 +302,27 @@ def interleave(job):
             ra, rb = "EXC", type(e).__name__
         if (ra, rb) != (True, False):
             out.append({"kind": "I", "draft": d, "problem": "handlers registered on one validator's resolver after construction are seen by another's: results %r %r, expected True False" % (ra, rb)})
+        # two validators with their own FormatChecker objects that give one format name different meanings
+        tried += 1
+        try:
+            ca, cb = jsonschema.FormatChecker(), jsonschema.FormatChecker()
+            ca.checks("code")(lambda x: not isinstance(x, str) or x.isupper())
+            cb.checks("code")(lambda x: not isinstance(x, str) or x.islower())
+            sa = {"items": {"format": "code"}}
+            va, vb = cls(sa, format_checker=ca), cls(copy.deepcopy(sa), format_checker=cb)
+            inst = ["ABC", "abc", "Abc"]
+            solo_a, solo_b = [list(e.path) for e in cls(sa, format_checker=ca).iter_errors(inst)], [list(e.path) for e in cls(sa, format_checker=cb).iter_errors(inst)]
+            ia, ib = va.iter_errors(inst), vb.iter_errors(inst)
+            got_a, got_b = [], []
+            for turn in (0, 1, 1, 0, 0, 1, 0, 1):
+                it, acc = (ia, got_a) if turn == 0 else (ib, got_b)
+                e = next(it, None)
+                if e is not None:
+                    acc.append(list(e.path))
+            if (got_a, got_b) != (solo_a, solo_b) or solo_a != [[1], [2]] or solo_b != [[0], [2]]:
+                out.append({"kind": "I", "draft": d, "problem": "validators with separate FormatChecker objects influence each other: %r %r, alone %r %r" % (got_a, got_b, solo_a, solo_b)})
+        except Exception as e:      # noqa
+            out.append({"kind": "I", "draft": d, "problem": "format-checker independence scenario raised %s" % type(e).__name__})
     return {"failures": out[:3], "tried": tried}
 
 
